@@ -176,6 +176,14 @@ deriving DecidableEq, Repr, Inhabited
 inductive Gran | coarse | fine
 deriving DecidableEq, Repr, Inhabited
 
+/-- ghost record of the dependency phase (not observable, used by the gating theorem only):
+    process instance `i` found no instance of `k` when it looked it up / passed its wait on
+    instance `d` for condition `c` -/
+inductive GateEv
+  | notFound (i : IId) (k : Name)
+  | passed (i : IId) (d : IId) (c : Cond)
+deriving DecidableEq, Repr, Inhabited
+
 structure Sys where
   gran : Gran := .coarse
   ordered : Bool := false
@@ -195,6 +203,7 @@ structure Sys where
   crashed : Bool := false
   launchClock : Nat := 0
   obs : List Obs := []                   -- observations of the current step (cleared per step)
+  gate : List GateEv := []               -- ghost: dependency lookups that found nothing, waits passed
 deriving DecidableEq, Repr, Inhabited
 
 /-! ### small accessors -/
@@ -214,6 +223,7 @@ def Sys.setPc (s : Sys) (t : Tid) (pc : Pc) : Sys :=
   { s with threads := s.threads.modify t fun th => { th with pc := pc } }
 def Sys.emit (s : Sys) (o : Obs) : Sys := { s with obs := s.obs ++ [o] }
 def Sys.spawn (s : Sys) (k : Kind) : Sys := { s with threads := s.threads ++ [{ kind := k }] }
+def Sys.note (s : Sys) (e : GateEv) : Sys := { s with gate := e :: s.gate }
 
 /-! ### pieces of the Go code -/
 
@@ -330,7 +340,7 @@ def doSkip (s : Sys) (t : Tid) (i : IId) : Sys :=
 def lookupRunning (s : Sys) (t : Tid) (i : IId) (k : Name) (c : Cond) (rest : List (Name × Cond)) : Sys :=
   match s.running.getD k none with
   | some d => (s.emit (.dep (s.nameOf i) k true)).setPc t (.depLookup d c rest)
-  | none => (s.emit (.dep (s.nameOf i) k false)).setPc t (.depNext rest)
+  | none => ((s.note (.notFound i k)).emit (.dep (s.nameOf i) k false)).setPc t (.depNext rest)
 
 /-- process the next dependency (or finish the phase) -/
 def depStep (s : Sys) (t : Tid) (i : IId) (h : Hints) (rest : List (Name × Cond)) : Sys :=
@@ -473,13 +483,14 @@ def armDepLookup (s : Sys) (t : Tid) (d : IId) (c : Cond) (rest : List (Name × 
 
 /-- woken from `waitForCompletion(d)`: a non-zero exit code under `process_completed_successfully` skips -/
 def armWaitDone (s : Sys) (t : Tid) (i d : IId) (ok : Bool) (rest : List (Name × Cond)) : Sys :=
-  if ok ∧ (s.ps (s.nameOf d)).exit ≠ 0 then doSkip s t i else s.setPc t (.depNext rest)
+  if ok ∧ (s.ps (s.nameOf d)).exit ≠ 0 then doSkip s t i
+  else (s.note (.passed i d (if ok then .completedOk else .completed))).setPc t (.depNext rest)
 
 def armWaitReady (s : Sys) (t : Tid) (i d : IId) (rest : List (Name × Cond)) : Sys :=
-  if (s.ps (s.nameOf d)).health = .ready then s.setPc t (.depNext rest) else doSkip s t i
+  if (s.ps (s.nameOf d)).health = .ready then (s.note (.passed i d .healthy)).setPc t (.depNext rest) else doSkip s t i
 
 def armWaitLogReady (s : Sys) (t : Tid) (i d : IId) (rest : List (Name × Cond)) : Sys :=
-  if (s.inst d).logReady = .ok then s.setPc t (.depNext rest) else doSkip s t i
+  if (s.inst d).logReady = .ok then (s.note (.passed i d .logReady)).setPc t (.depNext rest) else doSkip s t i
 
 def armProcSkipped (s : Sys) (t : Tid) (i : IId) : Sys :=
   if (s.icfg i).exitOnSkipped then (recordExit s 1).setPc t (.sdEnter .procSkip) else gotoCleanup s t
@@ -543,7 +554,7 @@ def stepProc (s : Sys) (t : Tid) (i : IId) (h : Hints) : Pc → Sys
   | .waitDone d ok rest => armWaitDone s t i d ok rest
   | .waitReady d rest => armWaitReady s t i d rest
   | .waitLogReady d rest => armWaitLogReady s t i d rest
-  | .waitStarted _ rest => s.setPc t (.depNext rest)
+  | .waitStarted d rest => (s.note (.passed i d .started)).setPc t (.depNext rest)
   | .procSkipped => armProcSkipped s t i
   | .runEnter => armRunEnter s t i
   | .runChecked => armRunChecked s t i
